@@ -68,6 +68,35 @@ def check_sat(reg, solver, assertions, timeout, logic=None, want_model=True, ext
     return st, model, secs, script
 
 
+def with_margin(cond, margin):
+    """a sufficient condition for `cond` in which every real inequality holds with room to spare (t <= 0 becomes
+    t + margin <= 0, t > 0 becomes t - margin > 0 ...); equalities and Boolean structure are kept.  Used only to pick a
+    *robust* counterexample (one that survives the float rounding of the replay) - never to decide a goal."""
+    m = tm.const(tm.read_float(margin))
+
+    def go(c, pos):
+        if c.op == "not":
+            return tm.not_(go(c.args[0], not pos))
+        if c.op in ("and", "or"):
+            return (tm.and_ if c.op == "and" else tm.or_)(*[go(a, pos) for a in c.args])
+        if c.op in ("le0", "lt0") and c.args[0].sort == "R":
+            t = c.args[0]
+            f = tm.le0 if c.op == "le0" else tm.lt0
+            return f(tm.add(t, m)) if pos else f(tm.sub(t, m))
+        return c
+
+    return go(cond, True)
+
+
+def robust_model(reg, solver, assertions, timeout, margins=(1e-2, 1e-4)):
+    """a model of the assertions that also satisfies them with a margin, if there is one (else None)."""
+    for mg in margins:
+        st, model, _, _ = check_sat(reg, solver, list(assertions) + [with_margin(a, mg) for a in assertions], timeout)
+        if st == "sat":
+            return model
+    return None
+
+
 def prove(reg, solver, name, goal, rungs, timeout, kind="goal", logic=None):
     """Show `goal` (Bool term) valid under assumptions.  `rungs` is a list of assumption lists, weakest
     (fewest assumptions) first: the first unsat wins (fewer assumptions is the stronger statement); only a
@@ -466,6 +495,37 @@ def shortcut_env(reg, leaves):
         except KeyError:
             pass
     return env, funcs
+
+
+def alternative_leaves(reg, path, leaves, n=12, seed=0):
+    """Other concrete inputs on the same path, for replaying a `sat` verdict whose model does not reproduce.
+
+    A goal over abstracted functions (exp, log, ...) can be refuted by the solver with a model in which the *atoms*
+    carry the violation while the leaf values happen to sit on a point where the real functions agree (x = 0, T = 1).
+    The verdict stays the solver's; these candidates only give the replay more points of the same path to confirm it
+    on.  Candidates are perturbations of the model (and values away from 0 and 1) that satisfy the path condition when
+    it is evaluated with the real functions."""
+    import random as _r
+
+    rng = _r.Random(seed)
+    keys = sorted(leaves)
+    out = []
+    for k in range(n * 6):
+        cand = {}
+        for key in keys:
+            v = float(leaves[key])
+            if k % 2 == 0:
+                cand[key] = v + rng.uniform(-1.0, 1.0) * (0.25 + abs(v))
+            else:
+                cand[key] = v * rng.uniform(0.3, 1.9) + rng.uniform(-0.7, 0.7)
+        if path is not None:
+            env, funcs = shortcut_env(reg, cand)
+            if not path_holds(path, env, funcs):
+                continue
+        out.append(cand)
+        if len(out) >= n:
+            break
+    return out
 
 
 def path_holds(path, env, funcs, base=()):
